@@ -247,6 +247,7 @@ pub fn check_c03(case: &C03Case) -> CaseResult {
                 }],
             },
             fail_write_at: None,
+            write_stall: None,
             unsolicited: vec![],
         }],
         ops,
@@ -518,6 +519,7 @@ pub fn check_c04(case: &C04Case) -> CaseResult {
                 default: vec![],
             },
             fail_write_at: None,
+            write_stall: None,
             unsolicited: vec![],
         }],
         ops: vec![
@@ -659,6 +661,171 @@ pub fn check_c04(case: &C04Case) -> CaseResult {
 
 fn short(r: &ReqSpec) -> String {
     format!("{} start {} count {}", r.kind().name(), r.start(), r.len())
+}
+
+// ---------------------------------------------------------------------------------------------
+// C03 under back-pressure: the transport stops accepting bytes in the middle of a frame
+
+#[derive(Clone, Debug, PartialEq, Eq, Hash, Serialize, Deserialize)]
+pub struct C03Bp {
+    pub framing: Fr,
+    pub decode: Decode,
+    /// (unit, timeout ms, gap before submitting ms, request)
+    pub requests: Vec<(u8, u32, u32, ReqSpec)>,
+    /// nothing is accepted for `.1` ms once `.0` bytes have been written
+    pub stall: (u32, u32),
+    pub max_timeouts: Option<u16>,
+    pub select_seed: u64,
+}
+
+pub fn arb_c03_bp() -> BoxedStrategy<C03Bp> {
+    (
+        arb_fr(),
+        arb_decode(),
+        vec(
+            (
+                any::<u8>(),
+                prop::sample::select(vec![1u32, 5, 20, 100, 1000]),
+                prop_oneof![3 => Just(0u32), 1 => 0u32..300],
+                arb_valid_req(),
+            ),
+            1..=4,
+        ),
+        (prop_oneof![2 => 0u32..30, 2 => 0u32..300, 1 => 0u32..700], prop::sample::select(vec![1u32, 4, 19, 50, 150, 999, 5000])),
+        proptest::option::weighted(0.3, 1u16..=3),
+        any::<u64>(),
+    )
+        .prop_map(|(framing, decode, requests, stall, max_timeouts, select_seed)| C03Bp {
+            framing,
+            decode,
+            requests,
+            stall,
+            max_timeouts,
+            select_seed,
+        })
+        .boxed()
+}
+
+/// Oracle: whatever the timing, the bytes on the wire are a concatenation of complete request
+/// frames, each the reference encoding of a distinct submitted request, in submission order;
+/// every request completes; a request of which no frame is on the wire completed with an error.
+pub fn check_c03_bp(case: &C03Bp) -> CaseResult {
+    let mut ops = Vec::new();
+    for (i, (unit, timeout, gap, req)) in case.requests.iter().enumerate() {
+        if *gap > 0 {
+            ops.push(COp::Advance(*gap));
+        }
+        ops.push(COp::Submit {
+            id: i,
+            style: Style::Future,
+            handle: 0,
+            unit: *unit,
+            timeout_ms: *timeout,
+            req: req.clone(),
+        });
+    }
+    ops.push(COp::Advance(60_000));
+    let run = run_client(&CliCase {
+        cfg: CliConfig {
+            framing: case.framing,
+            decode: case.decode,
+            max_timeouts: case.max_timeouts,
+            queue: 16,
+            retry_ms: 100_000_000,
+        },
+        conns: vec![ConnPlan {
+            peer: PeerPlan::default(),
+            fail_write_at: None,
+            write_stall: Some(case.stall),
+            unsolicited: vec![],
+        }],
+        ops,
+        select_seed: case.select_seed,
+        pre_enable: true,
+    });
+    let mut ok = CaseOk::new();
+    ok.label(match case.framing {
+        Fr::Mbap => "framing:mbap",
+        Fr::Rtu => "framing:rtu",
+    });
+    let mut wire: Vec<u8> = Vec::new();
+    let mut fragments = 0;
+    if let Some(p) = run.peers.first() {
+        for (_, b) in &p.writes {
+            wire.extend_from_slice(b);
+            fragments += 1;
+        }
+    }
+    // walk the wire: frame after frame of the submitted requests, in order
+    let mut pos = 0usize;
+    let mut next_req = 0usize;
+    let mut transmitted: Vec<usize> = Vec::new();
+    while pos < wire.len() {
+        let tx = if case.framing == Fr::Mbap && wire.len() >= pos + 2 {
+            u16::from_be_bytes([wire[pos], wire[pos + 1]])
+        } else {
+            0
+        };
+        let mut matched = None;
+        for j in next_req..case.requests.len() {
+            let (unit, _, _, req) = &case.requests[j];
+            let f = expected_request_frame(case.framing, tx, *unit, &req.to_valid().unwrap());
+            if wire[pos..].starts_with(&f) {
+                matched = Some((j, f.len()));
+                break;
+            }
+        }
+        match matched {
+            Some((j, n)) => {
+                transmitted.push(j);
+                next_req = j + 1;
+                pos += n;
+            }
+            None => {
+                let (unit, _, _, req) = &case.requests[next_req.min(case.requests.len() - 1)];
+                let f = expected_request_frame(case.framing, tx, *unit, &req.to_valid().unwrap());
+                return Err(format!(
+                    "transport stops accepting after {} bytes for {} ms: at offset {} the wire holds [{}] ({} bytes to the end), which is not a complete frame of any remaining request (the next one encodes to {} bytes [{}])",
+                    case.stall.0,
+                    case.stall.1,
+                    pos,
+                    hex(&wire[pos..]),
+                    wire.len() - pos,
+                    f.len(),
+                    hex(&f)
+                ));
+            }
+        }
+    }
+    for (i, _) in case.requests.iter().enumerate() {
+        let n = run.ledger.completions.iter().filter(|c| c.id == i).count();
+        if n != 1 {
+            return Err(format!("request {} completed {} times", i, n));
+        }
+        let c = run.ledger.completions.iter().find(|c| c.id == i).unwrap();
+        if matches!(c.res, Res::Ok(_) | Res::Exception(_)) {
+            return Err(format!("request {} completed with {:?} although the peer never answers", i, c.res));
+        }
+    }
+    if fragments > transmitted.len() {
+        ok.label("frame_written_in_pieces");
+    }
+    // the stall began inside a frame and outlasted that request's timeout
+    let mut off = 0usize;
+    for j in &transmitted {
+        let (unit, timeout, _, req) = &case.requests[*j];
+        let n = expected_request_frame(case.framing, 0, *unit, &req.to_valid().unwrap()).len();
+        let s = case.stall.0 as usize;
+        if s > off && s < off + n && case.stall.1 > *timeout {
+            ok.label("stall_mid_frame_longer_than_timeout");
+            ok.nontrivial = true;
+        }
+        off += n;
+    }
+    if transmitted.len() >= 2 {
+        ok.label("frames>=2");
+    }
+    Ok(ok)
 }
 
 // ---------------------------------------------------------------------------------------------
@@ -859,6 +1026,7 @@ pub fn stream_cli_case(case: &StreamCase) -> CliCase {
                 default: vec![],
             },
             fail_write_at: None,
+            write_stall: None,
             unsolicited: case
                 .idle_frames
                 .iter()
@@ -1209,6 +1377,7 @@ pub fn c11_wrap_run(n: usize) -> CaseResult {
                 }],
             },
             fail_write_at: None,
+            write_stall: None,
             unsolicited: vec![],
         }],
         ops,
